@@ -431,6 +431,7 @@ func TestPropWrites(t *testing.T) { vt.Check(t, propWrite) }
 func TestReplay(t *testing.T) {
 	vt.Register(propRead)
 	vt.Register(propWrite)
+	vt.Register(propFaults)
 	vt.Replay(t)
 }
 
